@@ -81,6 +81,75 @@ def variant_table(fn):
     return tab
 
 
+def partial_io_rule(ctx, crates, pid, scope=None, floor=5):
+    """`Write::write` / `Read::read` may transfer fewer bytes than asked: a call whose returned count never reaches a comparison,
+    an arithmetic update or a slice bound has silently accepted a short transfer.  `write_all` / `read_exact` / `read_to_end`
+    calls are counted as the discharged form of the same obligation (so the rule is seen to look at something)."""
+    R = ctx.rule("%s.no-unchecked-partial-io" % pid, "every io::Write::write / io::Read::read call's byte count flows into a comparison, an arithmetic update or a range bound (otherwise write_all / read_exact is required)", floor=floor)
+    from .. import mirg as _m
+    for c in crates:
+        for f in c.fn_list:
+            if not f.mir or "::tests::" in f.path or "::test_utils" in f.path or (scope and not scope.search(f.path)):
+                continue
+            blocks = f.mir["blocks"]
+            for bb, t in _m.iter_calls(f):
+                ce, cd = _m.callee(t) or "", _m.callee_decl(t) or ""
+                if re.search(r"io::(Write::write_all|Read::read_exact|Read::read_to_end)$", cd) or re.search(r"io::(Write::write_all|Read::read_exact|Read::read_to_end)$|io::(Write|Read)>::(write_all|read_exact|read_to_end)$", ce):
+                    if len(ctx.samples) < 300:
+                        ctx.ok(R, {"fn": f.path, "line": t["ln"], "call": (cd or ce).split("::")[-1]})
+                    else:
+                        ctx.rules[R]["obligations"] += 1
+                        ctx.rules[R]["discharged"] += 1
+                    continue
+                if not (re.search(r"io::(Write::write|Read::read)$", cd) or re.search(r"io::(Write::write|Read::read)$|io::(Write|Read)>::(write|read)$", ce)):
+                    continue
+                if re.search(r"as std::io::(Read|Write)>::(read|write)$", f.path):
+                    # an adapter's own read/write forwards the inner count to its caller, who owns the obligation
+                    ctx.ok(R, {"fn": f.path, "line": t["ln"], "call": "forwarding adapter"})
+                    continue
+                # forward slice of the returned value
+                derived = {_m.plocal(t["d"])}
+                used = False
+                changed = True
+                while changed and not used:
+                    changed = False
+                    for b in blocks:
+                        for st in b["s"]:
+                            if st[0] != "=":
+                                continue
+                            ops = [o for o in _m.rvalue_operands(st[2]) if _m.op_local(o) in derived]
+                            if not ops:
+                                continue
+                            if st[2][0] == "bin":
+                                used = True
+                            d_ = _m.plocal(st[1])
+                            if d_ not in derived:
+                                derived.add(d_)
+                                changed = True
+                        tt = b["t"]
+                        if tt["k"] == "call" and any(_m.op_local(a) in derived for a in tt["a"]):
+                            cn = _m.callee(tt) or ""
+                            if re.search(r"(Try>::branch|::from_residual|::unwrap|::expect|::map_err|::unwrap_or|::ok\b|convert::Into|convert::From)", cn):
+                                d_ = _m.plocal(tt["d"])
+                                if d_ not in derived:
+                                    derived.add(d_)
+                                    changed = True
+                            elif re.search(r"(ops::index::Index|slice::index|::get\b|::split_at|::truncate|::advance|::consume|cmp::|::min$|::max$|::checked_|::saturating_|::wrapping_)", cn):
+                                used = True
+                        if tt["k"] == "switch" and _m.op_local(tt["d"]) in derived and len(tt.get("ts") or []) >= 1:
+                            # `match n { 0 => .. }` on the count itself (not on the Result's discriminant)
+                            ty = f.crate.ty(f.mir["locals"][_m.op_local(tt["d"])][0]) or ""
+                            if ty in ("usize", "u64", "u32"):
+                                used = True
+                if used:
+                    ctx.ok(R, {"fn": f.path, "line": t["ln"], "call": (cd or ce).split("::")[-1], "count_checked": True})
+                else:
+                    what = "write" if re.search(r"rite", cd or ce) else "read"
+                    ctx.bad(R, "%s|partial-%s" % (f.path.split("::")[-1] if "::" in f.path else f.path, what), "%s:%d" % (f.file, t["ln"]),
+                            "the byte count returned by `%s` is never compared, accumulated or used as a bound" % (cd or ce).split("::", 1)[-1],
+                            "a short %s is accepted as complete: only a prefix of the data is %s" % (what, "written (and a valid but truncated stream is produced)" if what == "write" else "consumed"))
+
+
 def run(ctx):
     prog = ctx.prog
     mpq = prog.crate("wow_mpq")
@@ -89,6 +158,8 @@ def run(ctx):
     R_multi = ctx.rule("C03.multi-method-order-reversed", "combined methods: ADPCM stage first on compress / last on decompress; compressor's second-stage set ⊆ decompressor's", floor=2)
     R_val = ctx.rule("C03.decoded-size-validated", "every non-passthrough success path of decompress_with_monitor passes validate_decompression_result", floor=1)
     R_lim = ctx.rule("C03.compressor-respects-reader-limits", "compress consults validate_decompression_operation with default limits and stores raw when it would reject", floor=2)
+
+    partial_io_rule(ctx, [mpq], "C03", scope=re.compile(r"::compression::"), floor=4)
 
     fns = {norm(f.path): f for f in mpq.fn_list if f.kind != "Closure" and f.hir}
     comp = fns.get(C + "compress::compress")
